@@ -17,6 +17,10 @@ CONSTANTS
  AdvKinds = {}
  TrackWire = TRUE
  UseIds = TRUE
+ NodeTeardown = TRUE
+ MayVanish = TRUE
+ Aead = TRUE
+ CheckIdent = TRUE
  AutoTimers = FALSE
 INVARIANT TraceAccepted
 INVARIANT ExitIntegrity
